@@ -9,8 +9,9 @@ Model: the operations of `Model/WorldOps*.lean` return the new world and an answ
 everything observable (trees with values, attributes, comments, file sets; files; path index; reverse
 reference map).  Proved, for every world and all arguments: an `err` answer comes with the SAME world,
 for create, named create, remove, rename, set/remove character data, set attribute (both forms),
-insert/remove text item, deep copy, add_to_file, remove_from_file and set_version; a load that is rejected by the
-tokenizer or the parser into a model without files leaves the world as it was (`C11_rejected_first_load`).
+insert/remove text item, deep copy, add_to_file, remove_from_file and set_version; a load that the MODEL rejects (tokenizer or
+parser error, duplicate file name, a path with two kinds of element) leaves the world as it was (`C11_rejected_load`); a merge that
+fails half way does NOT in the library (known finding c11:failed-load-partial-merge) and is outside the model.
 Not covered by a theorem, and said so: `set_reference_target` and `move_element_here` are the two
 places where the Rust code mutates before its last fallible step (DEST attribute and reverse map
 before the final `set_character_data`; unlinking before `make_unique_item_name`); the model reproduces
@@ -56,20 +57,24 @@ theorem C11_remove_from_file (w : World) (x f : Nat) :
     (opRmFromFile S w x f).2 = .err → (opRmFromFile S w x f).1 = w := opRmFromFile_err_frame S w x f
 theorem C11_set_version (w : World) (f ver : Nat) :
     (opSetVersion S w f ver).2 = .err → (opSetVersion S w f ver).1 = w := opSetVersion_err_frame S w f ver
-/-- a load that is not accepted (tokenizer error, parser error, duplicate file name) leaves the world as it was -/
-theorem C11_rejected_first_load (nmAutosar : Nat) (w : World) (k : Nat) (name : Bytes) (strict : Bool) (buf : Bytes) (t : String) :
+/-- a load that the model does not accept leaves the world as it was -/
+theorem C11_rejected_load (nmAutosar : Nat) (w : World) (k : Nat) (name : Bytes) (strict : Bool) (buf : Bytes) (t : String) :
     (opLoad S V nmAutosar w k name strict buf).2 = .no t → (opLoad S V nmAutosar w k name strict buf).1 = w := by
   unfold opLoad
   split
   · intro _; rfl
   · split
     · intro _; rfl
-    · split
+    · dsimp only
+      split
       · intro _; rfl
-      · dsimp only
-        split
-        · intro _; rfl
+      · split
         · intro h; cases h
+        · split
+          · intro _; rfl
+          · split
+            · intro _; rfl
+            · intro h; cases h
 
 /-! non-vacuity: on the empty world every one of these calls does answer `err` -/
 example : (opCreate S V { models := [], nextId := 0, nextFile := 0, dead := [] } 0 0 none).2 = .err := by
